@@ -172,10 +172,11 @@ macro_rules! geom {
             en!("length_recip", va.length_recip(), 1.0 / la, 2.0 * (nn + 2.0) * eps / la);
             let df = sub(&a, &b);
             let ld = norm(&df);
-            // distance: each difference carries one rounding relative to |a_i|+|b_i|
-            let sdiff: f64 = (0..N).map(|i| (a[i].abs() + b[i].abs()).powi(2)).sum::<f64>().sqrt();
-            en!("distance", va.distance(vb), ld, 2.0 * (nn + 2.0) * eps * sdiff.max(ld));
-            en!("distance_squared", va.distance_squared(vb), ld * ld, 2.0 * (nn + 2.0) * eps * sdiff * sdiff.max(ld));
+            // distance: the terms combined are the squared differences, and a floating-point difference is
+            // correctly rounded relative to *itself* (exact for nearby operands), so the bound is relative
+            // to the distance - an expanded |a|^2 - 2 a.b + |b|^2 would only meet eps (|a| + |b|)^2
+            en!("distance", va.distance(vb), ld, 2.0 * (nn + 2.0) * eps * ld);
+            en!("distance_squared", va.distance_squared(vb), ld * ld, 2.0 * (nn + 2.0) * eps * ld * ld);
             en!("element_sum", va.element_sum(), a.iter().sum::<f64>(), 2.0 * nn * eps * a.iter().map(|x| x.abs()).sum::<f64>());
             let ep: f64 = a.iter().product();
             if dom(N as i32) {
@@ -261,6 +262,39 @@ macro_rules! geom {
                 acc.branch("angle: a 4-fold product leaves the normal range (outside the statement)");
             }
         });
+        // ------------------------------------------------------------------ layer 3a: nearly unit vectors
+        // (a "close enough to 1 already" shortcut must not leave the length error in place)
+        {
+            let dirs = harness::fam::unit_dirs(2);
+            let nd = dirs.len() as u64;
+            let dr = &dirs;
+            let offs: [f64; 12] = [1e-7, -1e-7, 1e-6, -1e-6, 3e-6, -3e-6, 1e-5, -1e-5, 1e-4, -1e-4, 1e-3, 0.0];
+            $rep.sweep(&format!("{tn}/normalize family/{nd} directions x 12 lengths within 1e-3 of 1"), nd * 12, |idx, acc| {
+                let d = dr[(idx % nd) as usize];
+                let k = 1.0 + offs[(idx / nd) as usize] * if stringify!($S) == "f64" { 1.0 } else { 1.0 };
+                let mut x = [0.0 as $S; N];
+                for i in 0..N.min(3) { x[i] = (d[i] * k) as $S; }
+                if N == 4 { x[3] = (0.5 * k) as $S; x[0] = (x[0] as f64 * 0.8660254037844386) as $S; x[1] = (x[1] as f64 * 0.8660254037844386) as $S; x[2] = (x[2] as f64 * 0.8660254037844386) as $S; }
+                let v = <T as Flat>::build(&x);
+                let xf: Vec<f64> = x.iter().map(|t| *t as f64).collect();
+                let len = norm(&xf);
+                acc.eval(true, idx);
+                if !(len > 0.5) { return; }
+                let ctx = || format!("v={:?} true length={:e}", xf, len);
+                let fbv = <T as Flat>::build(&(0..N).map(|i| <$S as Sc>::fin(i + 3)).collect::<Vec<_>>());
+                let outs: Vec<(&str, Vec<f64>)> = vec![
+                    ("normalize", f64s(&v.normalize())), ("try_normalize", v.try_normalize().map(|t| f64s(&t)).unwrap_or_default()),
+                    ("normalize_or_zero", f64s(&v.normalize_or_zero())), ("normalize_or", f64s(&v.normalize_or(fbv))), ("normalize_and_length", f64s(&v.normalize_and_length().0)),
+                ];
+                for (site, u) in outs {
+                    let lu = norm(&u);
+                    let want: Vec<f64> = xf.iter().map(|t| t / len).collect();
+                    if !((lu - 1.0).abs() <= 4.0 * eps && u.len() == N && (0..N).all(|i| (u[i] - want[i]).abs() <= 4.0 * eps)) {
+                        acc.fail(&format!("{tn}::{site}(nearly unit input)"), format!("{} got={:?} |got|-1={:e}", ctx(), u, lu - 1.0));
+                    }
+                }
+            });
+        }
         // ------------------------------------------------------------------ layer 3: normalize family
         let sp: Vec<$S> = if N <= 3 { $special() } else { $small() };
         let l = sp.len() as u64;
